@@ -208,6 +208,10 @@ def worker(item):
             "linear": -1e5 + 2e5 * x / N,
             "geometric": -1e5 * 0.99 ** x,
             "tiny-range": 1e-12 * x,
+            # the likelihood rises as fast as / faster than the volume shrinks: the evidence lies
+            # N (resp. N/nlive) nats below the largest log-likelihood, far beyond the range of exp
+            "ridge": 1.0 * x / nlive,
+            "steep": 2.0 * x / nlive,
         }[name]
         for expectation in ("logt", "t"):
             check_case(tuple(float(v) for v in logls), default_schedule(N, nlive), expectation, nlive, True, errs, f"{expectation}:long-{name}")
@@ -240,12 +244,14 @@ def run(ctx):
     for N in longN:
         for name in ("constant", "linear", "geometric", "tiny-range"):
             items.append(("long", (name, N, 5 if N == 1000 else 50)))
+    for name, N, nl in (("ridge", 1000, 1), ("steep", 1000, 1), ("steep", 1600, 2), ("ridge", 1200, 1)):
+        items.append(("long", (name, N, nl)))
     nontrivial = 0
     for it, res in ctx.pmap(worker, items):
         ctx.merge(res)
         nontrivial += res["nontrivial"]
     ctx.set("distinct_nontrivial", nontrivial)
-    ctx.set("rule", "every non-decreasing word over the logL letters (length <= L, >= 1 finite letter) x nlive {1,2,3,5} x default schedule x {logt,t} x 15 affine images; every per-iteration schedule over {1,2,3} for words of length <= Ls; fixed long sequences. Non-trivial: word with >= 2 distinct letters / schedule with >= 2 distinct counts; distinct by (word, nlive|schedule, expectation, image)")
+    ctx.set("rule", "every non-decreasing word over the logL letters (length <= L, >= 1 finite letter) x nlive {1,2,3,5} x default schedule x {logt,t} x 15 affine images; every per-iteration schedule over {1,2,3} for words of length <= Ls; fixed long sequences (constant, linear over 2e5, geometric, tiny range, and ridge / steep sequences whose evidence lies > 750 nats below the largest log-likelihood). Non-trivial: word with >= 2 distinct letters / schedule with >= 2 distinct counts; distinct by (word, nlive|schedule, expectation, image)")
     ctx.set("bounds", dict(letters=[repr(v) for v in LETTERS], max_len=L, max_len_schedules=Ls, nlive=[1, 2, 3, 5], scales=SCALES, offsets=OFFSETS, long=longN))
     ctx.set("exhaustive", True)
     ctx.sample({"word": list(allw[7]), "nlive": 2, "schedule": default_schedule(len(allw[7]), 2)})
